@@ -72,9 +72,15 @@ func init() {
 		Old: "\t\tfor i := range srcs {\n\t\t\tif sameFile, _ := SameFile(srcs[i], t.dst); sameFile {", New: "\t\tfor i := range srcs {\n\t\t\tif filepath.Base(srcs[i]) != filepath.Base(t.dst) {\n\t\t\t\tcontinue\n\t\t\t}\n\t\t\tif sameFile, _ := SameFile(srcs[i], t.dst); sameFile {",
 		Rule: "R20.1", Construct: "every source is compared"})
 	mutant(&Mutant{Name: "c20-truncate-before-backup", Property: "C20", File: "cmd/minify/main.go",
-		Old:  "\t\t\t\tif err != nil {\n\t\t\t\t\tError.Println(err)\n\t\t\t\t\treturn false\n\t\t\t\t}\n\t\t\t\tbreak\n\t\t\t}\n\t\t}\n\t}\n",
-		New:  "\t\t\t\tif err != nil {\n\t\t\t\t\tError.Println(err)\n\t\t\t\t}\n\t\t\t\tbreak\n\t\t\t}\n\t\t}\n\t}\n",
+		Old:  "\t\t\t\tif err != nil {\n\t\t\t\t\tError.Println(err)\n\t\t\t\t\treturn false\n\t\t\t\t}\n\t\t\t\tbackup = i\n\t\t\t\tbreak\n",
+		New:  "\t\t\t\tif err != nil {\n\t\t\t\t\tError.Println(err)\n\t\t\t\t}\n\t\t\t\tbackup = i\n\t\t\t\tbreak\n",
 		Rule: "R20.1", Construct: "backup rename"})
+	mutant(&Mutant{Name: "c20-cleanup-recognises-backup-by-name", Property: "C20", File: "cmd/minify/main.go",
+		Old: "\t\tif i == backup {\n\t\t\tif err == nil {", New: "\t\tif _ = backup; srcs[i] == t.dst+\".bak\" {\n\t\t\tif err == nil {",
+		Rule: "R20.9", Construct: "only for the backup made by this run"})
+	mutant(&Mutant{Name: "c20-samefile-name-shortcut", Property: "C20", File: "cmd/minify/io.go",
+		Old: "\tfi1, err := os.Stat(filename1)\n", New: "\tif filepath.Base(filename1) != filepath.Base(filename2) {\n\t\treturn false, nil\n\t}\n\tfi1, err := os.Stat(filename1)\n",
+		Rule: "R20.6", Construct: "verdict without error"})
 	mutant(&Mutant{Name: "c20-output-opened-first", Property: "C20", File: "cmd/minify/main.go",
 		Old: "\tvar err error\n\tvar fr io.ReadCloser\n\tvar fw io.WriteCloser\n\tif len(srcs) == 1 {", New: "\tvar err error\n\tvar fr io.ReadCloser\n\tvar fw io.WriteCloser\n\tfw, _ = openOutputFile(t.dst)\n\tif len(srcs) == 1 {",
 		Rule: "R20.2", Construct: "openOutputFile"})
@@ -179,6 +185,7 @@ func runC20(c *Ctx) {
 	// is removed after that write, so anything else loses the only copy
 	c.alsoUnder(map[string]string{"R19.1": "R20.7"}, nil, func() { c.r191(x) })
 	c.r208(x, "R20.8")
+	c.r209(x, "R20.9")
 }
 
 // R20.8 (= R19.11): taking the backup does not destroy a file that is already there.
@@ -240,9 +247,167 @@ func (c *Ctx) r208(x *cliCtx, rule string) {
 	c.R.Floor(rule, "backup renames", n, 1)
 }
 
+// backupRenameNode: the statement (a try.Do call) that renames the destination to its backup name.
+func (x *cliCtx) backupRenameNode() *flow.Node {
+	var renameN *flow.Node
+	for node, calls := range x.tryDoWith("os.Rename") {
+		for _, call := range calls {
+			if len(call.Args) == 2 && isTaskDst(x.info, call.Args[0]) {
+				renameN = node
+			}
+		}
+	}
+	return renameN
+}
+
+// backupWitness: variables that can only hold a non-initial value after the backup rename happened
+// (first assignment a constant, every other assignment dominated by the rename).
+func (x *cliCtx) backupWitness(renameN *flow.Node) func(types.Object) bool {
+	g, info := x.g, x.info
+	return func(o types.Object) bool {
+		if renameN == nil || o == nil {
+			return false
+		}
+		v, ok := o.(*types.Var)
+		if !ok || v.IsField() || v.Parent() == nil || v.Parent() == v.Pkg().Scope() {
+			return false
+		}
+		first := true
+		seen := false
+		for _, y := range g.Nodes {
+			if y.Kind != flow.KStmt {
+				continue
+			}
+			var rhs ast.Expr
+			hit := false
+			if y.Spec != nil {
+				for i, nm := range y.Spec.Names {
+					if info.Defs[nm] == o {
+						hit = true
+						if i < len(y.Spec.Values) {
+							rhs = y.Spec.Values[i]
+						}
+					}
+				}
+			}
+			if as, ok := y.Stmt.(*ast.AssignStmt); ok {
+				for i, l := range as.Lhs {
+					if id, ok := l.(*ast.Ident); ok && info.ObjectOf(id) == o {
+						hit = true
+						if len(as.Rhs) == len(as.Lhs) {
+							rhs = as.Rhs[i]
+						}
+					}
+				}
+			}
+			if !hit {
+				continue
+			}
+			seen = true
+			if first {
+				first = false
+				if rhs != nil {
+					if tv, ok := info.Types[rhs]; !ok || tv.Value == nil {
+						return false
+					}
+				}
+				continue
+			}
+			if !g.Dominates(renameN, y) {
+				return false
+			}
+		}
+		return seen
+	}
+}
+
+// isBackupGuard: cond identifies elem (an element S[I] of the source list) as the backup — by its name
+// (S[I] == t.dst+".bak") or by the index recorded when the backup was made (I == W, W a witness).
+func (x *cliCtx) isBackupGuard(cond ast.Expr, elem ast.Expr) bool {
+	b, ok := ast.Unparen(cond).(*ast.BinaryExpr)
+	if !ok || b.Op != token.EQL {
+		return false
+	}
+	if str(b.X) == str(elem) && isBakOfDst(x.info, b.Y) || str(b.Y) == str(elem) && isBakOfDst(x.info, b.X) {
+		return true
+	}
+	ix, ok := ast.Unparen(elem).(*ast.IndexExpr)
+	if !ok {
+		return false
+	}
+	w := x.backupWitness(x.backupRenameNode())
+	for _, pr := range [][2]ast.Expr{{b.X, b.Y}, {b.Y, b.X}} {
+		if str(pr[0]) == str(ix.Index) {
+			if id, ok := ast.Unparen(pr[1]).(*ast.Ident); ok && w(x.info.Uses[id]) {
+				return true
+			}
+		}
+	}
+	return false
+}
+
+// R20.9 (= R19.14): only a backup this run made is cleaned up.
+func (c *Ctx) r209(x *cliCtx, rule string) {
+	c.R.Rule(rule, "after writing, cmd/minify.minify removes the backup (or, on failure, moves it back over the destination). Both act on a source path. They may only touch a file this invocation created by its own rename: every os.Remove / os.Rename in minify() whose path argument is an element of the local source list is dominated by a condition over a witness — a local variable whose first assignment is a constant and all of whose other assignments are dominated by the backup rename (os.Rename(t.dst, …) inside try.Do). A test of the *name* (`srcs[i] == t.dst+\".bak\"`) is no witness: `minify -o a.js a.js.bak` reads a.js.bak, never renames anything, and then deletes the input")
+	g, info := x.g, x.info
+	renameN := x.backupRenameNode()
+	if renameN == nil {
+		c.R.Unres(rule, "main.minify/backup rename", c.pos(x.fd), "the rename of the destination to its backup name was not found")
+		return
+	}
+	// the local copy of the sources
+	srcObj := map[types.Object]bool{}
+	for _, y := range g.Nodes {
+		if as, ok := y.Stmt.(*ast.AssignStmt); ok && y.Kind == flow.KStmt && len(as.Lhs) == 1 && len(as.Rhs) == 1 && strings.Contains(nospace(str(as.Rhs[0])), ".srcs") {
+			if id, ok := as.Lhs[0].(*ast.Ident); ok {
+				if o := info.ObjectOf(id); o != nil {
+					srcObj[o] = true
+				}
+			}
+		}
+	}
+	isWitness := x.backupWitness(renameN)
+	n := 0
+	for _, y := range g.Nodes {
+		a := y.Ast()
+		if a == nil || (y.Kind != flow.KStmt && y.Kind != flow.KCond) {
+			continue
+		}
+		var root ast.Node = a
+		if y.Kind == flow.KCond {
+			root = y.Expr
+		}
+		for _, call := range findCalls(info, root, false, "os.Remove", "os.Rename") {
+			ix, ok := ast.Unparen(call.Args[0]).(*ast.IndexExpr)
+			if !ok {
+				continue
+			}
+			id, ok := ast.Unparen(ix.X).(*ast.Ident)
+			if !ok || !srcObj[info.Uses[id]] {
+				continue
+			}
+			n++
+			good := false
+			for _, f := range g.DomFacts(y) {
+				if f.Test.Kind != flow.KCond {
+					continue
+				}
+				ast.Inspect(f.Test.Expr, func(q ast.Node) bool {
+					if qi, ok := q.(*ast.Ident); ok && info.Uses[qi] != nil && isWitness(info.Uses[qi]) {
+						good = true
+					}
+					return true
+				})
+			}
+			c.R.Check(good, rule, fmt.Sprintf("main.minify/%s(%s…)#%d only for the backup made by this run", calleeName(info, call), str(call.Args[0]), n), c.pos(call), "behind a test of a variable set only after the backup rename", "the cleanup acts on "+str(call.Args[0])+" whenever its *name* is the backup name: an input file that happens to be called <dst>.bak is deleted although it was only read (`minify -o a.js a.js.bak`)")
+		}
+	}
+	c.R.Floor(rule, "cleanup operations on a source path", n, 2)
+}
+
 // R20.6: the overwrite detection identifies files the way the truncating open resolves them.
 func (c *Ctx) r206(x *cliCtx, rule string) {
-	c.R.Rule(rule, "openOutputFile opens its path with os.OpenFile, which follows symbolic links; the overwrite detection must therefore identify files after following links too: in cmd/minify.SameFile both os.FileInfo values handed to os.SameFile are results of os.Stat / (*os.File).Stat on the two parameters (os.Lstat only on the result of filepath.EvalSymlinks). With an identity test that does not follow links, `minify -o link.js real.js` (link.js → real.js) is not recognised as overwriting and the only copy is truncated without a backup")
+	c.R.Rule(rule, "openOutputFile opens its path with os.OpenFile, which follows symbolic links; the overwrite detection must therefore identify files after following links too: in cmd/minify.SameFile both os.FileInfo values handed to os.SameFile are results of os.Stat / (*os.File).Stat on the two parameters (os.Lstat only on the result of filepath.EvalSymlinks). Every return of SameFile with a nil error yields the os.SameFile result itself (no shortcut on the names). With an identity test that does not follow links, `minify -o link.js real.js` (link.js → real.js) is not recognised as overwriting and the only copy is truncated without a backup")
 	pk, info := x.pk, x.info
 	fd := c.fn(rule, pk, "SameFile")
 	if fd == nil {
@@ -298,6 +463,24 @@ func (c *Ctx) r206(x *cliCtx, rule string) {
 		bad = append(bad, "the two compared FileInfo values do not stem from the two parameters")
 	}
 	c.R.Check(len(bad) == 0, rule, construct, c.pos(calls[0]), "both sides stat'ed following links", strings.Join(bad, "; "))
+	// a verdict without error is os.SameFile's verdict: names decide nothing (hard links and symbolic links carry other names)
+	nret := 0
+	ast.Inspect(fd.Body, func(q ast.Node) bool {
+		if _, isLit := q.(*ast.FuncLit); isLit {
+			return false
+		}
+		rs, ok := q.(*ast.ReturnStmt)
+		if !ok || len(rs.Results) != 2 {
+			return true
+		}
+		if tv, ok := info.Types[rs.Results[1]]; !ok || !tv.IsNil() {
+			return true
+		}
+		nret++
+		c.R.Check(isCall(info, ast.Unparen(rs.Results[0]), "os.SameFile") != nil, rule, fmt.Sprintf("main.SameFile/verdict without error#%d", nret), c.pos(rs), "the result of os.SameFile", "SameFile answers "+str(rs.Results[0])+" without an error and without asking os.SameFile: two names of one file (a hard link, a symbolic link with another base name) are taken for different files and the source is truncated without a backup")
+		return true
+	})
+	c.R.Floor(rule, "error-free verdicts of SameFile", nret, 1)
 	// and the overwrite detection in minify() uses this function (R20.1 anchors on it), openOutputFile uses os.OpenFile
 	if ofd := c.fn(rule, pk, "openOutputFile"); ofd != nil {
 		opens := findCalls(info, ofd.Body, true, "os.OpenFile", "os.Create")
@@ -513,7 +696,7 @@ func (c *Ctx) r203(x *cliCtx) {
 		}
 		for _, f := range g.DomFacts(n) {
 			if f.Value && f.Test.Kind == flow.KCond {
-				if b, ok := ast.Unparen(f.Test.Expr).(*ast.BinaryExpr); ok && b.Op == token.EQL && str(b.X) == str(call.Args[0]) && isBakOfDst(info, b.Y) {
+				if x.isBackupGuard(f.Test.Expr, call.Args[0]) {
 					rm = n
 					bakExpr = str(call.Args[0])
 				}
@@ -807,7 +990,7 @@ func (c *Ctx) classifyPath(pk *packages.Package, fd *ast.FuncDecl, at ast.Node, 
 		if n != nil {
 			for _, f := range g.DomFacts(n) {
 				if f.Value && f.Test.Kind == flow.KCond {
-					if b, ok := ast.Unparen(f.Test.Expr).(*ast.BinaryExpr); ok && b.Op == token.EQL && str(b.X) == str(e) && isBakOfDst(info, b.Y) {
+					if (&cliCtx{pk, info, fd, c.graph(pk, fd)}).isBackupGuard(f.Test.Expr, e) {
 						return "backup", "guarded by " + str(f.Test.Expr)
 					}
 				}
@@ -985,6 +1168,10 @@ func runC19(c *Ctx) {
 	c.r1910(x)
 	c.r208(x, "R19.11")
 	c.r1912(x)
+	c.r209(x, "R19.14")
+	// a bundle written onto one of its inputs: the input is truncated by the open before the lazy reader gets to it,
+	// so the output silently lacks that file — the ordering rule of C20 is a condition of "the library's output" too
+	c.alsoUnder(map[string]string{"R20.1": "R19.13"}, nil, func() { c.r201(x) })
 }
 
 // R19.8: the bundle reader delivers files in order with the whole separator between them.
